@@ -224,7 +224,10 @@ pub(crate) fn replay_wal(
 						// clean end of the log. The writer is going to append to the last
 						// segment: cut the tail off, or the new records would sit behind
 						// bytes the next recovery cannot get past.
-						if segment_id == last && batches_in_segment > 0 {
+						// (With no complete record in the segment the whole content is the
+						// torn tail: an empty file is re-initialised by the writer like a
+						// new one, including its compression-type record.)
+						if segment_id == last {
 							truncate_torn_tail(&segment.file_path, last_valid_offset as u64)?;
 						}
 						break 'segment (current_memtable, batches_in_segment); // End of this segment
